@@ -8,9 +8,11 @@
 EXTENDS Naturals, Sequences, FiniteSets
 
 CONSTANTS Unix,          \* BOOLEAN: the transport can pass file descriptors (UNIX socket)
-          CookieOK       \* BOOLEAN: the client can read the cookie the server refers to
+          CookieOK,      \* BOOLEAN: the client can read the cookie the server refers to
+          Pref           \* the mechanisms the application wants offered, in its order of preference
 
-Pref == <<"EXTERNAL", "DBUS_COOKIE_SHA1", "ANONYMOUS">>
+PrefStock == <<"EXTERNAL", "DBUS_COOKIE_SHA1", "ANONYMOUS">>      \* what txdbus offers unless told otherwise
+PrefAlt == <<"ANONYMOUS", "EXTERNAL">>                            \* an application's own choice (subclass / instance attribute)
 
 VARIABLES phase,         \* "auth" | "nego" | "begun" | "closed"
           todo,          \* mechanisms not yet offered, in preference order
@@ -28,7 +30,7 @@ Live == phase \in {"auth", "nego"}
 Init ==
     /\ phase = "auth" /\ todo = Tail(Pref) /\ cur = Head(Pref) /\ offered = <<Head(Pref)>>
     /\ okSeen = FALSE /\ fdAnswered = FALSE
-    /\ out = <<"NUL", "AUTH EXTERNAL">>
+    /\ out = <<"NUL", "AUTH " \o Head(Pref)>>
 
 (* offer the next mechanism or give up *)
 TryNext ==
